@@ -563,4 +563,103 @@ def no_alias_snapshot(repo: Repo) -> RuleRun:
 no_alias_snapshot.rule_id = "C17.NO-ALIAS-SNAPSHOT"
 
 
-RULES = [purity, position_writers, link_algebra, affine_kinds, mirror_matrix, trig_domain, params_used, owns_geometry, angle_dimension, closest_search, float_stores, who_writes_points, symmetry_exact, angle_between_exact, match_tolerance, links_accumulate, radial_exact, no_alias_snapshot]
+def rotation_exact(repo: Repo, prop: str = PROP, rule: str = "C17.ROTATION-EXACT") -> RuleRun:
+    """'After the leader of a link moves, the follower is ... the original follower rotated about the axis by the angle the leader
+    turned (rotation)' - for turns of any size, and also when the leader slides along the axis while it turns: RotationLink is
+    constructed by the abstract evaluator over exact rational vectors (non-unit axis of rational length), its leader is then put
+    at the exact image of a Pythagorean turn (53.1, 126.9, -143.1, -36.9 degrees) with and without an axial slide, and transform()
+    must return the original follower turned by exactly that angle. functions.rotate is given its exact meaning."""
+    import math
+    from fractions import Fraction
+
+    from .. import exact
+
+    r = RuleRun(prop, rule, floor=12, what="RotationLink.transform turns the follower by exactly the angle its leader turned about the axis - beyond a quarter turn, in either sense, with an axial slide of the leader (exact rational evaluation)")
+    r.exhaustive = True
+    cls = repo.cls("optimize.links.RotationLink")
+    init = repo.find_method(cls, "__init__")
+    tr = repo.find_method(cls, "transform")
+    r.require(init is not None and tr is not None, "RotationLink.__init__ / transform vanished")
+    class WrongAngle(Exception):
+        """the follower is turned by an angle that is none of the turns the leader was given"""
+
+    TURNS = [(Fraction(3, 5), Fraction(4, 5)), (Fraction(-3, 5), Fraction(4, 5)), (Fraction(-4, 5), Fraction(-3, 5)), (Fraction(4, 5), Fraction(-3, 5))]
+
+    def trig(angle):
+        x = float(exact.value(angle)) if isinstance(angle, exact.Rat) else float(angle)
+        if abs(x) < 1e-12:
+            return Fraction(1), Fraction(0)
+        for c_, s_ in TURNS + [(c2, -s2) for c2, s2 in TURNS]:
+            if abs(math.atan2(float(s_), float(c_)) - x) < 1e-9:
+                return c_, s_
+        raise WrongAngle(math.degrees(x))
+
+    def rodrigues(p, cs, axis, origin):
+        c_, s_ = cs
+        k = axis.scale(exact.c(1) / exact.rsqrt(axis.dot(axis)))
+        v = p - origin
+        return origin + v.scale(exact.c(c_)) + k.cross(v).scale(exact.c(s_)) + k.scale(k.dot(v) * exact.c(1 - c_))
+
+    def hook(ev, call: ast.Call, name):
+        nm = (name or "").split(".")[-1]
+        if nm == "rotate" and len(call.args) == 4 and (name or "").split(".")[0] in ("f", "functions"):
+            p_, angle, axis, origin = (ev.eval(a) for a in call.args)
+            if all(isinstance(x, exact.Vec) for x in (p_, axis, origin)):
+                return rodrigues(p_, trig(angle), axis, origin)
+        if nm in ("array", "asarray", "copy") and call.args:
+            return ev.eval(call.args[0])
+        return NO_MATCH
+
+    n = 0
+    for axis_t, e1_t, e2_t in (((0, 0, Fraction(5, 2)), (1, 0, 0), (0, 1, 0)), ((4, 6, 12), (Fraction(6, 7), Fraction(2, 7), Fraction(-3, 7)), (Fraction(3, 7), Fraction(-6, 7), Fraction(2, 7)))):
+        A = exact.vec(*axis_t)
+        khat = A.scale(exact.c(1) / exact.rsqrt(A.dot(A)))
+        e1, e2 = exact.vec(*e1_t), exact.vec(*e2_t)
+        r.require(exact.same(e1.cross(e2), khat) or exact.same(e2.cross(e1), khat), "internal: the model frame is not orthonormal")
+        sense = 1 if exact.same(e1.cross(e2), khat) else -1
+        origin = exact.vec(Fraction(1, 3), -2, Fraction(5, 7))
+        leader0 = origin + e1.scale(exact.c(Fraction(3, 2))) + khat.scale(exact.c(Fraction(2, 5)))
+        follower0 = origin + e1.scale(exact.c(Fraction(-1, 2))) + e2.scale(exact.c(2)) + khat.scale(exact.c(Fraction(-3, 4)))
+        for (c_, s_) in TURNS:
+            for slide in (Fraction(0), Fraction(2)):  # 3/2 (radius of the leader), 2, 5/2: a corrupted radius keeps a rational length
+                link = Obj("link", cls=cls)
+                ev = exact.evaluator(repo, init.module, extra=hook)
+                try:
+                    ev.call_funcinfo(init, [link, leader0, follower0, A, origin])
+                    cs = (c_, s_ * sense)
+                    link.set("leader", rodrigues(leader0, cs, A, origin) + khat.scale(exact.c(slide)))
+                    got = ev.call_funcinfo(tr, [link])
+                except WrongAngle as wa:
+                    n += 1
+                    deg = math.degrees(math.atan2(float(s_), float(c_)))
+                    r.bad(
+                        tr,
+                        f"RotationLink (axis {tuple(str(x) for x in axis_t)}): the leader was turned by {deg:.1f} degrees about the axis{' and moved by ' + str(slide) + ' along it' if slide else ''}, the follower is turned by "
+                        f"{float(wa.args[0]):.1f} degrees: the angle is measured between vectors that are not the two radii (a height remembered from construction, ...), the follower loses its angular relation to the leader",
+                        tr.node,
+                        key=f"axis{axis_t[2]}:turn{deg:.0f}:slide{slide}",
+                    )
+                    continue
+                except (Raised, NotEvaluable) as err:
+                    raise AnalysisError(f"RotationLink not evaluable over exact rational vectors (axis {axis_t}, turn cos {c_}): {err}") from err
+                want = rodrigues(follower0, cs, A, origin)
+                n += 1
+                deg = math.degrees(math.atan2(float(s_), float(c_)))
+                r.check(
+                    isinstance(got, exact.Vec) and exact.same(got, want),
+                    tr,
+                    f"axis {tuple(str(x) for x in axis_t)}, leader turned {deg:.1f} deg{' and slid along the axis' if slide else ''}: follower turned by the same angle",
+                    f"RotationLink (axis {tuple(str(x) for x in axis_t)}): the leader was turned by {deg:.1f} degrees about the axis{' and moved by ' + str(slide) + ' along it' if slide else ''}, the follower is put at "
+                    f"{[str(exact.value(x)) for x in got.c] if isinstance(got, exact.Vec) else got!r} instead of {[str(exact.value(x)) for x in want.c]}: it has not turned by the angle its leader turned (beyond a quarter turn / "
+                    "with an axial slide the angle between the radii is measured wrongly) and loses its angular relation to the leader",
+                    tr.node,
+                    key=f"axis{axis_t[2]}:turn{deg:.0f}:slide{slide}",
+                )
+    r.require(n >= 12, f"only {n} exact scenarios examined")
+    return r
+
+
+rotation_exact.rule_id = "C17.ROTATION-EXACT"
+
+
+RULES = [purity, position_writers, link_algebra, affine_kinds, mirror_matrix, trig_domain, params_used, owns_geometry, angle_dimension, closest_search, float_stores, who_writes_points, symmetry_exact, angle_between_exact, match_tolerance, links_accumulate, radial_exact, no_alias_snapshot, rotation_exact]
